@@ -12,6 +12,26 @@ CHECKS = {
         note="Trusted: z3; shadow datetime/timedelta semantics (validated by a native re-run of each path's model); timedelta(seconds=pulsetime) modelled exact. Lists longer than the bound are outside the claim.",
         ref="§7 C08",
     ),
+    "C09": dict(
+        text="The real filter_period_intersect / period_union (and the third-party pure-Python Timeslot they use) are executed on symbolic millisecond instants and durations for every relative placement of the intervals; z3 discharges, per path, a point-wise exactly-once obligation (fresh time point), containment, data/id preservation, total-duration and input-immutability obligations. Bounded by list sizes (2x2 any order quick; up to 3x3 thorough).",
+        note="Trusted: z3, shadow datetime semantics (each path's model re-run natively). Millisecond granularity and internally non-overlapping inputs as stated by the property. Larger lists outside the claim.",
+        ref="§7 C09",
+    ),
+    "C10": dict(
+        text="The real flood is executed on N symbolic non-overlapping events (any input order for small N, pre-sorted for larger N) with symbolic pulsetime and data tags; per path z3 discharges point-wise obligations for a fresh time point and label (cover, per-label cover, new time only in short gaps, short gaps closed, long gaps intact), positivity, non-overlap and input immutability.",
+        note="Trusted: z3, shadows (validated natively per path); timedelta(seconds=pulsetime) exact; ms granularity. N<=3 any order + 4 sorted (quick); N<=4 any order + 6 sorted (thorough).",
+        ref="§7 C10",
+    ),
+    "C15": dict(
+        text="The real union_no_overlap / _split_event are executed on two symbolic sorted non-overlapping lists; per path z3 discharges: each list-one event returned exactly once unchanged, for each list-two event the uncovered part is returned exactly once (fresh time point), pieces keep data, no two outputs share positive time, covered time is the union, inputs unmodified.",
+        note="Trusted: z3, shadows (validated natively per path). Lists up to 2+2 (quick), 3+3 (thorough); ms granularity.",
+        ref="§7 C15",
+    ),
+    "C16": dict(
+        text="The real merge_events_by_keys, chunk_events_by_key, sort_by_*, limit_events, concat, sum_durations and filter_keyvals are executed on symbolic events whose key-presence pattern is explored by forking and whose values are symbolic tags (constant hash, so dict/tuple/list lookups fork on ==); z3 discharges group-partition, exact-sum, run, permutation/order, prefix and complementary-partition obligations on every path.",
+        note="Trusted: z3, shadows (validated natively per path); sum_durations in exact arithmetic; filter_keyvals_regex outside the claim (C regex engine). N<=3..4 quick, N<=4..6 thorough.",
+        ref="§7 C16",
+    ),
 }
 
 NOT_YET = "check not built yet (work in progress; see DESIGN.md §7 for the plan)"
